@@ -351,6 +351,39 @@ fn check_one<CS: BbsCiphersuite>(rep: &Report, ck: &str, c: &Case) -> CheckResul
             }
         }
     }
+    // list-shape edits: a never-signed message rides along without an index of its own, an index without a
+    // message, or a second entry under an index that is already there (before or after the genuine pair)
+    {
+        let never = b"never signed".to_vec();
+        let mut d2 = dm.clone();
+        d2.push(never.clone());
+        cx.expect_reject("blind_proof_verify", "surplus-signer-msg", || pv(&proof, Some(l), &d2, &dcm, &di, &dci, hdr, phd, pk), || "one more message than indexes".into())?;
+        let mut c2 = dcm.clone();
+        c2.push(never.clone());
+        cx.expect_reject("blind_proof_verify", "surplus-committed-msg", || pv(&proof, Some(l), &dm, &c2, &di, &dci, hdr, phd, pk), || "one more committed message than indexes".into())?;
+        if let Some(&h) = (0..l).filter(|i| !di.contains(i)).collect::<Vec<_>>().last() {
+            let mut i2 = di.clone();
+            i2.push(h);
+            i2.sort();
+            cx.expect_reject("blind_proof_verify", "surplus-signer-index", || pv(&proof, Some(l), &dm, &dcm, &i2, &dci, hdr, phd, pk), || "one more index than messages".into())?;
+        }
+        for (k, after) in [(0usize, true), (0, false), (dm.len().saturating_sub(1), true)] {
+            if k < dm.len() {
+                let at = if after { k + 1 } else { k };
+                let (mut d3, mut i3) = (dm.clone(), di.clone());
+                d3.insert(at, never.clone());
+                i3.insert(at, di[k]);
+                cx.expect_reject("blind_proof_verify", "repeated-signer-index", || pv(&proof, Some(l), &d3, &dcm, &i3, &dci, hdr, phd, pk), || format!("index {} twice, forged entry {}", di[k], if after { "after" } else { "before" }))?;
+            }
+            if k < dcm.len() {
+                let at = if after { k + 1 } else { k };
+                let (mut d3, mut i3) = (dcm.clone(), dci.clone());
+                d3.insert(at, never.clone());
+                i3.insert(at, dci[k]);
+                cx.expect_reject("blind_proof_verify", "repeated-committed-index", || pv(&proof, Some(l), &dm, &d3, &di, &i3, hdr, phd, pk), || format!("committed index {} twice, forged entry {}", dci[k], if after { "after" } else { "before" }))?;
+            }
+        }
+    }
     // present a disclosed signer message as a committed one with the same combined position
     if let (Some(&i_last), true) = (di.last(), true) {
         // index i in signer space == index (i - L - 1) in committed space only if i > L: impossible;
@@ -508,7 +541,7 @@ pub fn run(ctx: &Ctx, rep: &Report) -> Meta {
         rule: "honest blind run (L = 0..4 signer messages, M = 0..3 committed) then group 1: every single-bit flip of the commitment octets (all bits for the all-bit-flips runs, 64 sampled otherwise), \
                point/proof of different runs, proof for other messages, other suite, whole-scalar removal / duplication / insertion / truncation / extension at every position -> blind_sign must return Err; \
                group 2: single edits of committed messages, signer messages, boundary moves, blinding factor (other, None, one bit), header, pk, suite -> verify_blind_sign Err; \
-               group 3: single edits of disclosed data of either kind, index moves, L-1 / L+1 / None / L+M+1, header, ph, pk, proof bit flips, plain verifier, other suite -> blind_proof_verify Err; \
+               group 3: single edits of disclosed data of either kind, index moves, list shapes (surplus signer / committed message, surplus index, a never-signed entry under a repeated index before or after the genuine pair), L-1 / L+1 / None / L+M+1, header, ph, pk, proof bit flips, plain verifier, other suite -> blind_proof_verify Err; \
                size sweep over every M in 4..=40 (quick) / 4..=130 (thorough) and 63..65, the sweep cases under contention, the point at infinity as commitment with made-up or honest response scalars, the just-accepted octets replayed to the other suite, a refused commitment presented again; a panic counts as not accepted here and is reported under C08; non-trivial = honest run with M >= 1 and all three groups executed"
             .into(),
         assumptions: vec!["accidental acceptance would need a hash collision or a discrete-log relation between generators".into()],
